@@ -36,6 +36,7 @@ def showConn (c : Conn Float) : String :=
 def parsePkt (tok : String) : Option (CloseTimer.Pkt Float) :=
   match tok.splitOn "," with
   | ["drop"] => some .drop
+  | ["dup"] => some .drop        -- duplicate (space, packet number): "discard packets which were already processed"
   | ["dropret"] => some .dropRet
   | ["rb"] => some .reserved
   | ["vn", o, c, idle] => do
